@@ -62,7 +62,7 @@ Proof. dconn c. unfold draining, pump_send. cbn [c_send]. destruct sd; try discr
 
 Lemma enqueue_qinv0 r c : qinv0 c -> qinv0 (enqueue r c).
 Proof.
-  dconn c. unfold qinv0, enqueue. cbn [c_send]. destruct (sender_alive sd) eqn:A; cbn; intros H Ha.
+  dconn c. unfold qinv0, enqueue, queue_full, completed_maxsize. cbn [c_send]. destruct (sender_alive sd) eqn:A; cbn; intros H Ha.
   - rewrite A in Ha. discriminate.
   - apply H. reflexivity.
 Qed.
@@ -128,7 +128,7 @@ Section Live.
         * intros H. apply enqueue_qinv0. dconn c. exact H.
         * intros H. apply enqueue_ainv. dconn c. exact H.
         * intros id. rewrite enqueue_R. dconn c. unfold R, reply_ids. cbn. lia.
-        * intros A. dconn c. unfold enqueue. cbn [c_send set_completed set_invoked set_received] in *.
+        * intros A. dconn c. unfold enqueue, queue_full, completed_maxsize. cbn [c_send set_completed set_invoked set_received] in *.
           rewrite A. cbn. eexists. reflexivity.
       + repeat split.
         * dconn c. auto.
@@ -139,12 +139,12 @@ Section Live.
       * intros H. apply enqueue_qinv0. dconn c. exact H.
       * intros H. apply enqueue_ainv. dconn c. exact H.
       * intros id. rewrite enqueue_R. dconn c. unfold R, reply_ids. cbn. lia.
-      * intros A. dconn c. unfold enqueue. cbn [c_send set_received] in *. rewrite A. cbn. eexists. reflexivity.
+      * intros A. dconn c. unfold enqueue, queue_full, completed_maxsize. cbn [c_send set_received] in *. rewrite A. cbn. eexists. reflexivity.
     - repeat split.
       * intros H. apply enqueue_qinv0. dconn c. exact H.
       * intros H. apply enqueue_ainv. dconn c. exact H.
       * intros id. rewrite enqueue_R. dconn c. unfold R, reply_ids. cbn. lia.
-      * intros A. dconn c. unfold enqueue. cbn [c_send set_received] in *. rewrite A. cbn. eexists. reflexivity.
+      * intros A. dconn c. unfold enqueue, queue_full, completed_maxsize. cbn [c_send set_received] in *. rewrite A. cbn. eexists. reflexivity.
   Qed.
 
   Lemma recv_items_facts mark items : forall c,
@@ -314,8 +314,8 @@ Section Live.
     - destruct (take_inflight id (c_inflight c)) as [[n rest]|]; auto.
       right. exists [(id, result_of o)].
       rewrite pump_draining.
-      + dconn c. unfold enqueue. cbn [c_send set_completed set_inflight] in *. rewrite Al. reflexivity.
-      + dconn c. unfold draining, enqueue in *. cbn [c_send set_completed set_inflight] in *. rewrite Al. exact D.
+      + dconn c. unfold enqueue, queue_full, completed_maxsize. cbn [c_send set_completed set_inflight] in *. rewrite Al. reflexivity.
+      + dconn c. unfold draining, enqueue, queue_full, completed_maxsize in *. cbn [c_send set_completed set_inflight] in *. rewrite Al. exact D.
     - destruct (c_recv c) eqn:Rc; auto. right. exists [].
       rewrite pump_draining; dconn c; cbn in *; [rewrite app_nil_r; reflexivity|exact D].
     - destruct (c_recv c) eqn:Rc; auto. left. apply teardown_queue. exact F.
